@@ -605,11 +605,32 @@ def run(ctx, only=None):
     if only is None:
         concurrent_add(ctx)
         close_after_rejection(ctx)
+        concurrent_instances(ctx)
         import ls_iter
         if ctx.harness(['p_nested_iter']):
             # the clean-up itself with a delivery at every instruction boundary of drop(instance)
             ls_iter.instr_sweep(ctx, ls_iter.C12_KINDS, configs=ls_iter.DROP_CONFIGS, key='instruction_drop_sweep')
     ctx.coverage['outcome_histogram'] = hist_outcomes(hists, impl)
+
+
+def concurrent_instances(ctx, rounds=1500):
+    """instances of three threads (a signal each) created, used and dropped side by side: each one built reports its signal,
+    and when all are gone the descriptors are as at the start - "every registration it made, and only those, has been
+    removed" also holds when another thread's instance comes or goes at the same instant (harness/src/bin/p_c12_conc.rs)"""
+    if not ctx.harness(['p_c12_conc']):
+        return
+    rc, out, _ = sh([common.bin_path('p_c12_conc'), str(rounds)], timeout=200)
+    row = [l.split() for l in out.split('\n') if l.startswith('G ')]
+    res = row[0][1:] if row else ['no-output', str(rc)]
+    ctx.evaluations += 3 * rounds
+    if res[0] == 'lost' and len(res) == 4:
+        ctx.violation({'monitor': 'concurrent-instances'},
+                      'three threads creating and dropping their own instances (one signal each, %d rounds): %s instance(s) did not report the signal raised right after '
+                      'their construction, %s descriptor(s) left open when all were gone' % (rounds, res[1], res[3]),
+                      {'concurrent_instances': True, 'rounds': rounds, 'result': res})
+    else:
+        ctx.correspondence('concurrent instances probe: %d rounds x 3 threads, nothing lost, nothing left' % rounds, res[0] == 'ok', res)
+    ctx.coverage['concurrent_instances_probe'] = ' '.join(res)
 
 
 def hist_outcomes(hists, impl):
@@ -626,6 +647,16 @@ def hist_outcomes(hists, impl):
 def replay(ctx, path):
     case = json.load(open(path))
     h = case.get('case', {}).get('history')
+    if case.get('case', {}).get('concurrent_instances'):
+        ctx.harness(['p_c12_conc'])
+        rc, out, _ = sh([common.bin_path('p_c12_conc'), str(case['case']['rounds'])], timeout=200)
+        print(out)
+        if 'G lost' in out:
+            print('REPRODUCED: instances of concurrent threads lose signals / leave registrations behind')
+        return 1 if 'G ok' not in out else 0
+    if case.get('case', {}).get('instr_sweep'):
+        import ls_iter
+        return ls_iter.instr_replay(ctx, case['case'], ls_iter.C12_KINDS)
     if h is None:
         print('replay file names no concrete input:', json.dumps(case.get('broken'), indent=1))
         return 1
